@@ -351,6 +351,25 @@ func genC04Plan(rt *rapid.T) fPlan {
 	if len(p.Events) == 0 && !hangDone {
 		p.Events = append(p.Events, fEvent{AtUs: rapid.IntRange(0, 60000).Draw(rt, "evAt2"), Kind: rapid.SampledFrom([]string{"kill-conns", "close"}).Draw(rt, "evKind2")})
 	}
+	// calls whose own context is already done when they are made (the closed client answers them with the context's
+	// error; nothing may follow from that for the calls after them)
+	for _, e := range p.Events {
+		if e.Kind != "close" || rapid.IntRange(0, 2).Draw(rt, "doneCtxAfterClose") != 0 {
+			continue
+		}
+		for ci := range p.Callers {
+			for oi := range p.Callers[ci] {
+				op := &p.Callers[ci][oi]
+				if (op.Kind == "do" || op.Kind == "multi" || op.Kind == "cache") && rapid.IntRange(0, 2).Draw(rt, "doneCtx") == 0 {
+					op.DoneCtx, op.DeadlineUs, op.CancelUs = true, 0, 0
+				}
+			}
+		}
+		// and somebody calls again afterwards
+		ci := rapid.IntRange(0, len(p.Callers)-1).Draw(rt, "afterDoneCaller")
+		p.Callers[ci] = append(p.Callers[ci], fOp{GapUs: rapid.IntRange(0, 70000).Draw(rt, "afterDoneGap"), Kind: "do", Cmds: []fCmd{{UID: "uz", Class: "read"}}})
+		break
+	}
 	return p
 }
 
@@ -417,6 +436,9 @@ func c04Check(c *stat.Collector, t *testing.T, rt stat.Fataler, plan fPlan) {
 					}
 				}
 				for i, rr := range r.Results {
+					if op.DoneCtx && isCtxErr(rr.Error()) {
+						continue // the call's own context was done before the call: either error is right
+					}
 					if !fIsClosing(rr.Error()) {
 						c.Fail(rt, "C04.err-closing-after-close", fmt.Sprintf("%s position %d started %dus after Close returned and got %v, want ErrClosing", where, i, r.AfterCloseUs, rr.Error()), plan)
 					}
